@@ -96,6 +96,15 @@ ImplBranch(layout, req, route) ==
             sub == [k \in 1..Len(first) |-> layout[first[k]]]           \* their flags
             second == Filter(sub, Flag(req), 1)
         IN [k \in 1..Len(second) |-> first[second[k]]]
+\* a model isotherm built from a template isotherm (ModelIsotherm.from_isotherm): the data and fitting
+\* arguments are the caller's, everything else is the template's.  The result is labelled with the
+\* REQUESTED branch (not the template's own, if the template is a model isotherm of the other branch)
+\* and keeps the template's units and metadata.
+TemplateLabels(req, branch, unitsTemplate, unitsResult, metaTemplate, metaResult) ==
+   IF branch # req THEN "result is labelled with another branch than the requested one"
+   ELSE IF unitsResult # unitsTemplate THEN "units or identity differ from the template isotherm"
+   ELSE IF metaResult # metaTemplate THEN "metadata differ from the template isotherm"
+   ELSE ""
 \* an empty requested branch must be refused before any fit is attempted
 MustRefuse(layout, req, route) == SpecBranch(layout, req, route) = <<>>
 =============================================================================
